@@ -1509,10 +1509,15 @@ func (c *clipperBase) checkJoinRight(e *Active, pt Point64, checkCurrX bool) {
 
 	if e.outrec.idx == next.outrec.idx {
 		c.addLocalMaxPoly(e, next, pt)
-	} else if e.outrec.idx < next.outrec.idx {
-		c.joinOutrecPaths(e, next)
 	} else {
-		c.joinOutrecPaths(next, e)
+		// two different rings are linked end to end: both must reach the join point first
+		addOutPt(e, pt)
+		addOutPt(next, pt)
+		if e.outrec.idx < next.outrec.idx {
+			c.joinOutrecPaths(e, next)
+		} else {
+			c.joinOutrecPaths(next, e)
+		}
 	}
 
 	e.joinWith = JoinRight
@@ -1546,10 +1551,15 @@ func (c *clipperBase) checkJoinLeft(e *Active, pt Point64, checkCurrX bool) {
 
 	if e.outrec != nil && prev.outrec != nil && e.outrec.idx == prev.outrec.idx {
 		c.addLocalMaxPoly(prev, e, pt)
-	} else if e.outrec != nil && prev.outrec != nil && e.outrec.idx < prev.outrec.idx {
-		c.joinOutrecPaths(e, prev)
 	} else {
-		c.joinOutrecPaths(prev, e)
+		// two different rings are linked end to end: both must reach the join point first
+		addOutPt(e, pt)
+		addOutPt(prev, pt)
+		if e.outrec.idx < prev.outrec.idx {
+			c.joinOutrecPaths(e, prev)
+		} else {
+			c.joinOutrecPaths(prev, e)
+		}
 	}
 
 	prev.joinWith = JoinRight
